@@ -15,7 +15,7 @@ import os
 import re
 import shutil
 
-from vf import build, recs, graph
+from vf import build, recs, graph, core
 
 # (name, harness args, quick?)   sigma: 10/2a plain; c6 RECEIVED, c8 STARTED, e8 FAILED, cc INFO, c0 RESETTED, ec ERROR_EBUS,
 # d4 unknown command 5 (first bytes); 80 81 82 85 aa b1 83 second bytes
@@ -130,7 +130,8 @@ def _device(ctx, exe, wd, cov):
     cov["device_configs"] = per
     cov["event_classes_in_graphs"] = seen
     missing = [k for k, v in seen.items() if v == 0 and k not in ("close", "device-error")]   # a repaired self-reset path need not close
-    if missing:
+    known = {f["key"] for f in core.load_findings() if f.get("property") == "C14" and f.get("status") == "known"}
+    if missing and not [v for v in ctx.violations if v["key"] not in known]:   # a rejected tree may legitimately lack a class
         raise RuntimeError("vacuity: event classes never produced by any extracted graph: %s" % missing)
     cov["device_graph_nodes"] = nodes
     cov["device_graph_edges"] = edges
@@ -160,18 +161,39 @@ def _device_random(ctx, exe, wd, cov):
     return stats["distinct"], stats["generated"], info["traces"]
 
 
+KNOWN_DESIGN = {"C14:self-reset-close-drops-buffered-bytes":
+                "C14-design:self-reset-closes-transport (EnhLoop, self-reset branch: Transport::close flushes the rest of the chunk)"}
+PINNED_082 = {"C14:reset-frame-drops-earlier-symbol", "C14:reset-frame-alters-earlier-arbitration-result"}
+
+
 def _design(ctx, cov):
     """S => P on the bounded model (no code involved): design assurance, defect discovery, vacuity guard of P"""
     cfg = "MC_DeviceEnhanced.cfg" if ctx.thorough else "MC_DeviceEnhanced_quick.cfg"
     stats, found = graph.check(ctx, "MC_DeviceEnhanced", cfg, "/dev/null", env={"VF_CAP": "5"}, workers=8, heap="12g",
                                timeout=1500, tag="C14-mc")
     sigs = [s for s, _ in found]
+    notes = [KNOWN_DESIGN[s] for s in sigs if s in KNOWN_DESIGN]
+    other = [s for s in sigs if s not in KNOWN_DESIGN]
     cov["design_mc"] = {"cfg": cfg, "states": stats["distinct"], "transitions": stats["generated"], "tlc_runs": stats["runs"],
-                        "s_violates_p_with": sigs, "witnesses": {s: t for s, t in found}}
-    ctx.notes.append("S => P (all streams <= 5 bytes x all chunkings, %d states): the code-shaped model violates P with %s"
-                     % (stats["distinct"], sigs or "nothing"))
+                        "design_notes": notes, "s_violates_p_otherwise": other, "witnesses": {s: t for s, t in found}}
+    for n in notes:
+        ctx.notes.append("design note %s: S => P (all streams <= 5 bytes x all chunkings, %d states) is refuted only by it" % (n, stats["distinct"]))
+    for s, t in found:
+        if s in other:
+            ctx.drift.append("S => P: the code-shaped model of EnhancedDevice violates P with %s (witness %s)" % (s, t))
+    states, trans = stats["distinct"], stats["generated"]
+    if ctx.thorough:
+        # for the record and as a vacuity guard of P: the S of the tree before the C14 fixes must be rejected with their signatures
+        ostats, ofound = graph.check(ctx, "MC_DeviceEnhanced", "MC_DeviceEnhanced_pinned082.cfg", "/dev/null", env={"VF_CAP": "5"},
+                                     workers=8, heap="12g", timeout=1500, tag="C14-mc-old")
+        osigs = {s for s, _ in ofound}
+        cov["design_mc_pinned082"] = {"states": ostats["distinct"], "transitions": ostats["generated"], "s_violates_p_with": sorted(osigs)}
+        if not PINNED_082 <= osigs:
+            raise RuntimeError("vacuity: P does not reject the S model of the tree before the C14 fixes with %s (got %s)"
+                               % (sorted(PINNED_082), sorted(osigs)))
+        states += ostats["distinct"]; trans += ostats["generated"]
     ctx.log("design-mc", stats, sigs)
-    return stats["distinct"], stats["generated"], set(sigs)
+    return states, trans, set(sigs)
 
 
 def _curated(ctx, exe, wd, cov):
@@ -261,6 +283,7 @@ def run(ctx):
         "traces_validated_against_impl": len(cov["device_configs"]) + ntraces + 2,
         "samples": [{"config": first, **cov["device_configs"][first]}] + cov["curated_reproductions"],
         "s_conforms": conforms and not ctx.drift,
+        "exhaustive": all(c["fixpoint"] for c in cov["device_configs"].values()) and cov["transport"]["fixpoint"],
         "rule": "states/transitions: products (extracted graph or recorded trace) x P monitor explored by TLC, plus the S => P "
                 "model; every device configuration and the transport graph are extracted from the real objects to a fix-point",
     })
